@@ -15,8 +15,10 @@
 (*          value or a field default                                        *)
 (*     pres "c" = carries a `// @preserve` comment, "n" = not               *)
 (*     ext  base service (definition number) or 0                           *)
-(*     fns  functions of a service: [name, g (name group), a, r, t] with    *)
-(*          argument / result / throws type expressions                     *)
+(*     fns  functions of a service: [name, g (name group), pre, a, r, t]    *)
+(*          with argument / result / throws type expressions; pre = the    *)
+(*          name of a function of which this name is a proper extension    *)
+(*          ("m1x" extends "m1"), else ""                                   *)
 (* A type expression is a tree: [n |-> "b"] (base type), [n |-> "r", d]     *)
 (* (reference to definition d: a struct-like, enum or typedef, in the same  *)
 (* file or in a directly included one), [n |-> "l"|"s", v], [n |-> "m",k,v].*)
@@ -103,6 +105,11 @@ Match(p, s, fn) == CASE p.q = "exact"  -> p.s = s /\ p.f = fn.name      \* -m S1
                      [] p.q = "anysvc" -> p.f = fn.name                  \* -m .*\.m1
                      [] p.q = "prefix" -> p.s = s /\ p.f = fn.g          \* -m S1\.m.*
                      [] p.q = "unq"    -> FALSE                          \* -m m1 : interpreted first
+\* The patterns are regular expressions and the statement does not say whether they are anchored: a function whose
+\* name merely extends the name written ("S1.m1" against S1.m1x) MAY count as matching.
+MatchMay(p, s, fn) == \/ Match(p, s, fn)
+                      \/ p.q = "exact" /\ p.s = s /\ fn.pre # "" /\ p.f = fn.pre
+                      \/ p.q = "anysvc" /\ fn.pre # "" /\ p.f = fn.pre
 
 \* an unqualified name means the method of that name in SOME service of the root file (the statement does not
 \* say which when there are several); every consistent reading is an interpretation
@@ -137,9 +144,14 @@ MustFns(I, P, sel) ==
 \* May: without a filter the statement does not speak about services of included files that nobody extends.
 \* With a filter: a method selected through the name of a base service that lives in an included file, and the
 \* other methods of base services ("base-service methods they need") may stay.
+SelectedMay(I, P) ==
+  {w \in I.fns \X I.roots \X I.svcs :
+      /\ w[1][1] \in AncSet(I, w[2])
+      /\ w[3] \in PathTo(I, w[2], w[1][1])
+      /\ \E p \in P : MatchMay(p, w[3], FnRec(I, w[1]))}
 MayFns(I, P, sel) ==
   IF P = {} THEN I.fns
-  ELSE {w[1] : w \in sel} \cup {sf \in I.fns : \E r \in I.roots : sf[1] \in AncSet(I, r) \ {r}}
+  ELSE {w[1] : w \in SelectedMay(I, P)} \cup {sf \in I.fns : \E r \in I.roots : sf[1] \in AncSet(I, r) \ {r}}
 
 \* a kept method addressed through service s2 needs s2, the service that defines it and the `extends` chain between
 LinksOK(I, P, sel, R) ==
